@@ -730,9 +730,9 @@ theorem walkOrder_ok {hash : JVal → String} {E : List (Job × Comps)} (G : Goo
   refine ⟨nodup_sortBy _ _ (nodup_dedup _), ?_⟩
   intro e he
   rcases spfile_mem_members G he with ⟨c, hc⟩
-  simp only [walkOrder, sortDirs, mem_sortBy, allDirs, mem_dedup, List.mem_cons, List.mem_flatMap,
-    List.mem_map, List.mem_range]
-  refine Or.inr ⟨(e.2 ++ [fnSp], c), hc, e.2.length, by simp, by simp⟩
+  simp only [walkOrder, sortDirs, mem_sortBy, allDirs, mem_dedup, List.mem_cons, List.mem_flatMap]
+  refine Or.inr ⟨(e.2 ++ [fnSp], c), hc, List.mem_append_left _ ?_⟩
+  exact List.mem_map.mpr ⟨e.2.length, by simp, by simp⟩
 
 /-! ### from a project and a path list to `GoodExport` -/
 
@@ -780,6 +780,19 @@ theorem goodExport_of {hash : JVal → String} {P : Project} {ds : List Comps}
   sp := fun e he => hwf.sp e.1 (List.of_mem_zip (a := e.1) (b := e.2) he).1
   nonempty := fun e he => hwf.nonempty e.1 (List.of_mem_zip (a := e.1) (b := e.2) he).1
   nonested := fun e he => hnn e.1 (List.of_mem_zip (a := e.1) (b := e.2) he).1
+
+/-- no job holds an empty sub-directory (zip archives written by signac do not store them, F-16e) -/
+def NoEmptyDirs (P : Project) : Prop := ∀ j ∈ P, ∀ fc ∈ j.files, isDirEntry fc.2 = false
+
+theorem zipMembers_eq {P : Project} (ds : List Comps) (h : NoEmptyDirs P) :
+    zipMembers P ds = exportMembers P ds := by
+  unfold zipMembers
+  rw [List.filter_eq_self]
+  intro fc hfc
+  rcases members_path (E := P.zip ds) hfc with ⟨e, he, f, c, hf, rfl⟩
+  have := h e.1 (List.of_mem_zip (a := e.1) (b := e.2) he).1 (f, c) hf
+  simp only at this
+  simp [this]
 
 theorem zip_fst_eq {P : Project} {ds : List Comps} (hlen : P.length = ds.length) :
     (P.zip ds).map (·.1) = P := by
